@@ -7,7 +7,8 @@ import UberjobModel.Model.Phys
      edges     `u>v:d` / `u>v:p<k>` / `u>v:k<k>=<name>`
      registry  `i:S` / `i:N` in mapping order
      stale     ids; out: an id or `-`
-     stage     `build` (after the loop of plan_with_value_stores) | `anc` (after remove_nodes_from) |
+     stage     `build` (closed form of the loop of plan_with_value_stores) | `loop` (the transcribed loop itself) |
+               `loopfinal` (prune_plan applied to `loop`) | `anc` (after remove_nodes_from) |
                `final` (what dry_run returns) | `engine` (after run_physical's prune_source_literals) |
                `plus` (C14: the dry-run plan with the all-nodes gather, pruned again w.r.t. that gather)
   reply: `nodes … | edges … | out …`
@@ -70,6 +71,9 @@ def drv (line : String) : String :=
     | ["phys", stage], some P =>
       let out := physOut P
       if stage == "build" then (physBuild P).str out
+      else if stage == "loop" then (planWithValueStores P).str out
+      else if stage == "loopfinal" then
+        (prunePlan (PN.isLit P) (fuelOf P) (required P) out (planWithValueStores P)).str out
       else if stage == "anc" then (pruneAnc (fuelOf P) (required P ++ out.toList) (physBuild P)).str out
       else if stage == "final" then (physFinal P).str out
       else if stage == "engine" then (physEngine P).str out
